@@ -104,6 +104,42 @@ K.loop(3, var="j", invariant=["0 <= i and i < nval and 0 <= j and (j <= ncol - 1
 K.loop(4, var="k", invariant=["0 <= i and i < nval and 0 <= k and k <= i"])
 K.loop(5, var="j", invariant=["0 <= j and j <= ncol + 1"])
 
+# ---- functional contract (C03): the Hersbach decomposition is exact, term by term, for unweighted forecasts without missing values
+K = F.kernel("c_crps#decomp")
+K.requires("nval >= 1 and nval <= 2**15 and ncol >= 1 and ncol <= 2**15 and use_weights == 0")
+K.requires("valid(obs, nval) and valid(sim, nval*ncol) and valid(reliability_table, (ncol+1)*7) and valid(crps_decompos, 5)")
+K.requires("separated(obs, sim, weights_vector, reliability_table, crps_decompos)")
+K.requires("forall(q, 0 <= q < nval, not isnan(obs[q]))")
+K.requires("forall(q, 0 <= q < nval*ncol, not isnan(sim[q]))")
+# the kernel accumulates into the output vector: the wrapper hands it over zeroed (checked at the boundary by the L3 monitor)
+K.requires("not isnan(crps_decompos[0]) and crps_decompos[0] == 0.0 and not isnan(crps_decompos[1]) and crps_decompos[1] == 0.0")
+K.assigns("reliability_table[0:(ncol+1)*7]", "crps_decompos[0:5]")
+OKR = "result == 0"
+K.ensures("implies(%s, not isnan(crps_decompos[0]) and not isnan(crps_decompos[1]) and not isnan(crps_decompos[4]) and crps_decompos[0] == crps_decompos[1] + crps_decompos[4])" % OKR, props=["C03"])
+K.ensures("implies(%s, not isnan(crps_decompos[2]) and not isnan(crps_decompos[3]) and crps_decompos[2] == crps_decompos[3] - crps_decompos[4])" % OKR, props=["C03"])
+K.ensures("implies(%s, crps_decompos[1] >= 0 and crps_decompos[4] >= 0 and crps_decompos[3] >= 0)" % OKR, props=["C03"])
+W = "not isnan(weight) and weight*real(nval) == 1.0 and weight > 0"
+ACC = ["forall(q, 0 <= q <= ncol, not isnan(a[q]) and a[q] >= 0)", "forall(q, 0 <= q <= ncol, not isnan(b[q]) and b[q] >= 0)", "forall(q, 0 <= q <= ncol, not isnan(g[q]) and g[q] == 0.0)",
+       "not isnan(o[0]) and o[0] >= 0", "implies(b[0] > 0, o[0] > 0)", "o[0]*real(nval) <= real(i)", "not isnan(o[ncol]) and o[ncol] >= 0",
+       "not isnan(uncertainty) and uncertainty >= 0", "not isnan(crps_potential) and crps_potential == 0.0"]
+K.loop(0, var="j", invariant=["0 <= j and j <= ncol + 1 and not isnan(uncertainty) and uncertainty == 0.0 and not isnan(crps_potential) and crps_potential == 0.0",
+                              "forall(q, 0 <= q < j, not isnan(a[q]) and a[q] == 0.0 and not isnan(b[q]) and b[q] == 0.0 and not isnan(g[q]) and g[q] == 0.0 and not isnan(o[q]) and o[q] == 0.0)"])
+K.loop(1, var="i", invariant=["0 <= i and i <= nval"] + ACC + ["o[ncol]*real(nval) <= real(i)", "implies(a[ncol] > 0, o[ncol]*real(nval) <= real(i) - 1.0)"])
+K.loop(2, var="j", invariant=["0 <= i and i < nval and 0 <= j and j <= ncol", "forall(q, 0 <= q < j, not isnan(ensemb[q]))"])
+K.loop(3, var="j", invariant=["0 <= i and i < nval and 0 <= j and (j <= ncol - 1 or ncol < 1)", W,
+                              "forall(q, 0 <= q < ncol, not isnan(ensemb[q]))",
+                              "forall(q, 0 <= q <= ncol, not isnan(a[q]) and a[q] >= 0 and not isnan(b[q]) and b[q] >= 0)",
+                              # the bins written are 1 .. ncol-1: the outlier bins keep their value
+                              "b[0] == at_loop_entry(b[0]) and a[ncol] == at_loop_entry(a[ncol])"])
+K.loop(4, var="k", invariant=["0 <= i and i < nval and 0 <= k and k <= i", W, "not isnan(uncertainty) and uncertainty >= 0"])
+K.loop(5, var="j", invariant=["0 <= j and j <= ncol + 1",
+                              "forall(q, 0 <= q <= ncol, not isnan(a[q]) and a[q] >= 0 and not isnan(b[q]) and b[q] >= 0)",
+                              "forall(q, j <= q <= ncol, not isnan(g[q]) and g[q] == 0.0)",
+                              "implies(j == 0, not isnan(o[0]) and o[0] >= 0 and o[0] <= 1 and implies(b[0] > 0, o[0] > 0))",
+                              "implies(j <= ncol, not isnan(o[ncol]) and o[ncol] >= 0 and o[ncol] <= 1 and implies(a[ncol] > 0, o[ncol] < 1))",
+                              "not isnan(crps_decompos[0]) and not isnan(crps_decompos[1]) and not isnan(crps_potential) and crps_decompos[0] == crps_decompos[1] + crps_potential",
+                              "crps_decompos[1] >= 0 and crps_potential >= 0 and not isnan(uncertainty) and uncertainty >= 0"])
+
 # ====================================================================================== c_dscore.c (C05 safety; C10)
 F = cfile("src/hydrodiy/stat/c_dscore.c")
 K = F.kernel("c_ensrank")
